@@ -233,15 +233,23 @@ Lemma replay_loop f t c b1 :
     recv_on bk c t = recv_on b1 c t ++ done ->
     (forall c', c' <> c -> recv_on bk c' t = recv_on b1 c' t) ->
     Inv_gt bk t ->
-    let bk' := fold_left (fun b m => deliver h f b c t m) todo bk in
+    forall k, let bk' := replay h (length todo + k) f bk c t (length done) in
     Frame_lt b1 bk' t /\ log_of bk' t = log_of b1 t /\
     recv_on bk' c t = recv_on b1 c t ++ done ++ todo /\
     (forall c', c' <> c -> recv_on bk' c' t = recv_on b1 c' t) /\
     Inv_gt bk' t.
 Proof.
-  intros Hf. induction todo as [|m todo IHt]; intros done bk Hsplit HF HL HR HO HI; simpl.
-  - rewrite app_nil_r. auto.
-  - set (br := record bk c t m).
+  intros Hf. induction todo as [|m todo IHt]; intros done bk Hsplit HF HL HR HO HI k; cbn [length Nat.add].
+  - assert (E : replay h k f bk c t (length done) = bk).
+    { destruct k as [|k]; [reflexivity|]. cbn [replay].
+      assert (En : nth_error (log_of bk t) (length done) = None) by (apply nth_error_None; rewrite HL, Hsplit, app_nil_r; lia).
+      rewrite En. reflexivity. }
+    rewrite E, app_nil_r. auto.
+  - cbn [replay].
+    assert (En : nth_error (log_of bk t) (length done) = Some m)
+      by (rewrite HL, Hsplit, nth_error_app2, Nat.sub_diag by lia; reflexivity).
+    rewrite En.
+    set (br := record bk c t m).
     assert (HIr : Inv_gt br t).
     { intros x Hx. destruct (HI x Hx) as [Hn Hc']. split; [exact Hn|]. intros c'.
       unfold br. rewrite subs_record, log_record, recv_record.
@@ -255,7 +263,8 @@ Proof.
     set (bn := pushes h f br (h c t m)) in *.
     destruct (F2 t (Pos.le_refl t)) as [L2 R2].
     assert (Hgoal := IHt (done ++ [m]) bn).
-    rewrite <- !app_assoc in Hgoal. simpl in Hgoal. apply Hgoal; clear Hgoal.
+    rewrite <- !app_assoc in Hgoal. simpl in Hgoal. rewrite app_length in Hgoal. cbn [length] in Hgoal. rewrite Nat.add_1_r in Hgoal.
+    apply Hgoal; clear Hgoal.
     + exact Hsplit.
     + destruct HF as [S1 F1]. split.
       * intros x. rewrite S2. unfold br. rewrite subs_record. apply S1.
@@ -271,7 +280,7 @@ Proof.
 Qed.
 
 Definition subscribe_one (f : nat) (b : bus) (c : consumer) (t : topic) : bus :=
-  let b1 := add_sub b c t in fold_left (fun b m => deliver h f b c t m) (log_of b1 t) b1.
+  let b1 := add_sub b c t in replay h (length (log_of b1 t) + maxgrow) f b1 c t 0.
 
 Lemma insert_sorted_NoDup c l : ~ In c l -> NoDup l -> NoDup (insert_sorted c l).
 Proof.
@@ -294,8 +303,8 @@ Lemma subscribe_one_spec f b c t :
 Proof.
   intros Hf Hinv Hnot. unfold subscribe_one. set (b1 := add_sub b c t).
   destruct (Hinv t) as [Hnd Hct].
-  assert (Hl := replay_loop f t c b1 Hf (log_of b1 t) [] b1).
-  simpl in Hl. destruct Hl as [[S F] [HL [HR [HO HI]]]].
+  assert (Hl := fun H1 H2 H3 H4 H5 H6 => replay_loop f t c b1 Hf (log_of b1 t) [] b1 H1 H2 H3 H4 H5 H6 maxgrow).
+  cbn [length app] in Hl. destruct Hl as [[S F] [HL [HR [HO HI]]]].
   - reflexivity.
   - split; [intros x; reflexivity|]. intros x _. split; [reflexivity | intros ?; reflexivity].
   - reflexivity.
@@ -305,7 +314,7 @@ Proof.
     + unfold b1. rewrite subs_add_sub. destruct (Pos.eqb_spec x t); [lia | exact Hn].
     + intros c'. unfold b1. rewrite subs_add_sub, recv_add_sub, log_add_sub.
       destruct (Pos.eqb_spec x t); [lia|]. apply Hc.
-  - set (b' := fold_left (fun b0 m => deliver h f b0 c t m) (log_of b1 t) b1) in *.
+  - set (b' := replay h (length (log_of b1 t) + maxgrow) f b1 c t 0) in *.
     split; [|split].
     + intros x. destruct (Pos.compare_spec x t) as [->|Hx|Hx].
       * (* the subscribed topic *)
@@ -353,7 +362,7 @@ Proof.
   induction ts as [|t ts IH]; intros b c Hinv Hnd Hnot; simpl.
   - split; [exact Hinv | intros t; intuition].
   - inversion Hnd as [|? ? Hnotin Hnd']; subst.
-    change (fold_left (fun b0 m => deliver h f b0 c t m) (log_of (add_sub b c t) t) (add_sub b c t))
+    change (replay h (length (log_of (add_sub b c t) t) + maxgrow) f (add_sub b c t) c t 0)
       with (subscribe_one h f b c t).
     destruct (subscribe_one_spec h N Hwf f b c t (fuel_any t) Hinv (Hnot t (or_introl eq_refl)))
       as [Hinv' [Hsubs _]].
@@ -362,7 +371,7 @@ Proof.
       apply Hnot. right. exact Ht'.
     + split; [exact Hi|]. intros t'. change (subscribe h f (subscribe_one h f b c t) c ts)
         with (fold_left (fun b0 t0 => let b1 := add_sub b0 c t0 in
-               fold_left (fun b2 m => deliver h f b2 c t0 m) (log_of b1 t0) b1) ts (subscribe_one h f b c t)) in Hs.
+               replay h (length (log_of b1 t0) + maxgrow) f b1 c t0 0) ts (subscribe_one h f b c t)) in Hs.
       rewrite Hs, Hsubs. destruct (Pos.eqb_spec t' t) as [->|Hne].
       * rewrite insert_sorted_In. intuition.
       * intuition. congruence.
